@@ -8,7 +8,19 @@ fn stop_here(n: usize) -> usize {
     n + 1
 }
 
+#[inline(never)]
+fn stop_rec(n: u32) -> u32 {
+    println!("deepest {n}");
+    n
+}
+
+#[inline(never)]
+fn rec(n: u32) -> u32 {
+    if n == 0 { stop_rec(n) } else { rec(n - 1) + 1 }
+}
+
 fn main() {
+    let depth = rec(6);
     let arr = [10i32, 20, 30, 40];
     let p: *const i32 = arr.as_ptr();
     let unit = ();
@@ -63,5 +75,5 @@ fn main() {
     }
 
     let k = stop_here(big_front as usize + arr.len());
-    println!("{:?} {:?} {} {} {}", p, pu, k, garbage.capacity(), garbage_string.capacity() + wrapped.len());
+    println!("{:?} {:?} {} {} {}", p, pu, k, garbage.capacity(), garbage_string.capacity() + wrapped.len() + depth as usize);
 }
